@@ -412,3 +412,112 @@ Proof.
       rewrite <- E. subst q. destruct p as [[p1 p2] p3], v as [[v1 v2] v3].
       unfold vadd, vsub. apply pair3; ring.
 Qed.
+
+(* ---------------- BOX, any parallelepiped ---------------- *)
+(* The code's remark "capable of handling generic parallelepipeds": with only
+   det <> 0 the entries still bound exactly the solid v + s a1 + t a2 + u a3. *)
+Lemma box_entries (v a1 a2 a3 : pt) :
+  box RS (pl v ++ pl a1 ++ pl a2 ++ pl a3) =
+  let D := det a1 a2 a3 in
+  let side := if Rltb D 0 then 1%Z else (-1)%Z in
+  Ok [ (TP, pl (cross a2 a3) ++ [dot (cross a2 a3) (vadd v a1)], (- side)%Z);
+       (TP, pl (cross a2 a3) ++ [dot (cross a2 a3) v], side);
+       (TP, pl (cross a3 a1) ++ [dot (cross a3 a1) (vadd v a2)], (- side)%Z);
+       (TP, pl (cross a3 a1) ++ [dot (cross a3 a1) v], side);
+       (TP, pl (cross a1 a2) ++ [dot (cross a1 a2) (vadd v a3)], (- side)%Z);
+       (TP, pl (cross a1 a2) ++ [dot (cross a1 a2) v], side) ].
+Proof.
+  open_body @box. rewrite (pl_nil a3), v3_at0, v3_at3, v3_at6, v3_at9. tospec.
+  assert (E1 : dot (cross a2 a3) a1 = det a1 a2 a3) by (unfold det; apply dot_comm).
+  assert (E2 : dot (cross a3 a1) a2 = det a1 a2 a3).
+  { rewrite (det_cyc a1 a2 a3). unfold det. apply dot_comm. }
+  assert (E3 : dot (cross a1 a2) a3 = det a1 a2 a3).
+  { rewrite (det_cyc a1 a2 a3), (det_cyc a2 a3 a1). unfold det. apply dot_comm. }
+  rewrite E1, E2, E3. reflexivity.
+Qed.
+
+Lemma plane_entry_value (n q : pt) (side : Z) (p : pt) :
+  entry_value (TP, pl n ++ [dot n q], side) p = IZR side * (dot n p - dot n q).
+Proof. destruct n as [[a b] c]. reflexivity. Qed.
+
+Theorem box_general_inside (v a1 a2 a3 : pt) :
+  det a1 a2 a3 <> 0 ->
+  forall es, box RS (pl v ++ pl a1 ++ pl a2 ++ pl a3) = Ok es ->
+  forall p, box_inside v a1 a2 a3 p <-> all_negative es p.
+Proof.
+  intros HD es E p. rewrite box_entries in E. cbv zeta in E. injection E as <-.
+  set (D := det a1 a2 a3) in *.
+  assert (A1 : dot (cross a2 a3) a1 = D) by (unfold D, det; apply dot_comm).
+  assert (A2 : dot (cross a3 a1) a2 = D).
+  { unfold D. rewrite (det_cyc a1 a2 a3). unfold det. apply dot_comm. }
+  assert (A3 : dot (cross a1 a2) a3 = D).
+  { unfold D. rewrite (det_cyc a1 a2 a3), (det_cyc a2 a3 a1). unfold det. apply dot_comm. }
+  assert (Z1 : dot (cross a2 a3) a2 = 0 /\ dot (cross a2 a3) a3 = 0 /\
+               dot (cross a3 a1) a3 = 0 /\ dot (cross a3 a1) a1 = 0 /\
+               dot (cross a1 a2) a1 = 0 /\ dot (cross a1 a2) a2 = 0).
+  { clear. destruct a1 as [[x1 y1] z1], a2 as [[x2 y2] z2], a3 as [[x3 y3] z3].
+    unfold dot, cross. repeat split; ring. }
+  destruct Z1 as (Z12 & Z13 & Z23 & Z21 & Z31 & Z32).
+  unfold all_negative.
+  assert (Sd : forall x : R,
+            (IZR (- (if Rltb D 0 then 1 else -1)) * (x - D) < 0 <-> x / D < 1) /\
+            (IZR (if Rltb D 0 then 1 else -1) * x < 0 <-> 0 < x / D)).
+  { intros x. destruct (Rltb_case D 0) as [[L ->]|[L ->]]; cbn [Z.opp IZR IPR].
+    - split; split; intros H.
+      + apply (Rmult_lt_reg_r (- D)); [lra|]. replace (x / D * - D) with (- x) by (field; lra). lra.
+      + assert (x / D * - D < 1 * - D) by (apply Rmult_lt_compat_r; lra).
+        replace (x / D * - D) with (- x) in H0 by (field; lra). lra.
+      + replace (x / D) with ((- x) / (- D)) by (field; lra). apply Rdiv_lt_0_compat; lra.
+      + replace (x / D) with ((- x) / (- D)) in H by (field; lra).
+        assert (0 * - D < - x / - D * - D) by (apply Rmult_lt_compat_r; lra).
+        replace (- x / - D * - D) with (- x) in H0 by (field; lra). lra.
+    - assert (0 < D) by lra. split; split; intros H1.
+      + apply (Rmult_lt_reg_r D); [lra|]. replace (x / D * D) with x by (field; lra). lra.
+      + assert (x / D * D < 1 * D) by (apply Rmult_lt_compat_r; lra).
+        replace (x / D * D) with x in H0 by (field; lra). lra.
+      + apply Rdiv_lt_0_compat; lra.
+      + assert (0 * D < x / D * D) by (apply Rmult_lt_compat_r; lra).
+        replace (x / D * D) with x in H0 by (field; lra). lra. }
+  set (q := vsub p v).
+  assert (Q : forall n, dot n p - dot n (vadd v a1) = dot n q - dot n a1 /\
+                        dot n p - dot n (vadd v a2) = dot n q - dot n a2 /\
+                        dot n p - dot n (vadd v a3) = dot n q - dot n a3 /\
+                        dot n p - dot n v = dot n q).
+  { intros n. unfold q. rewrite !dot_vadd_r, dot_vsub_r. repeat split; ring. }
+  split.
+  - intros (s & t & u & Hs & Ht & Hu & ->).
+    assert (Eq : q = vadd (vmul s a1) (vadd (vmul t a2) (vmul u a3))).
+    { unfold q. destruct v as [[v1 v2] v3], a1 as [[x1 y1] z1], a2 as [[x2 y2] z2], a3 as [[x3 y3] z3].
+      unfold vsub, vadd, vmul. apply pair3; ring. }
+    assert (D1 : dot (cross a2 a3) q = s * D).
+    { rewrite Eq, !dot_vadd_r, !dot_vmul_r, A1, Z12, Z13. ring. }
+    assert (D2 : dot (cross a3 a1) q = t * D).
+    { rewrite Eq, !dot_vadd_r, !dot_vmul_r, A2, Z21, Z23. ring. }
+    assert (D3 : dot (cross a1 a2) q = u * D).
+    { rewrite Eq, !dot_vadd_r, !dot_vmul_r, A3, Z31, Z32. ring. }
+    repeat (apply Forall_cons); try apply Forall_nil; rewrite plane_entry_value;
+      match goal with |- context [cross ?x ?y] => destruct (Q (cross x y)) as (Q1 & Q2 & Q3 & Q4) end;
+      rewrite ?Q1, ?Q2, ?Q3, ?Q4, ?A1, ?A2, ?A3, ?D1, ?D2, ?D3.
+    + apply (proj1 (Sd (s * D))). replace (s * D / D) with s by (field; lra). lra.
+    + apply (proj2 (Sd (s * D))). replace (s * D / D) with s by (field; lra). lra.
+    + apply (proj1 (Sd (t * D))). replace (t * D / D) with t by (field; lra). lra.
+    + apply (proj2 (Sd (t * D))). replace (t * D / D) with t by (field; lra). lra.
+    + apply (proj1 (Sd (u * D))). replace (u * D / D) with u by (field; lra). lra.
+    + apply (proj2 (Sd (u * D))). replace (u * D / D) with u by (field; lra). lra.
+  - intros H. repeat match goal with H : Forall _ (_ :: _) |- _ => inversion_clear H end.
+    repeat match goal with H : entry_value _ _ < 0 |- _ => rewrite plane_entry_value in H end.
+    destruct (Q (cross a2 a3)) as (Q1 & _ & _ & Q1').
+    destruct (Q (cross a3 a1)) as (_ & Q2 & _ & Q2').
+    destruct (Q (cross a1 a2)) as (_ & _ & Q3 & Q3').
+    rewrite ?Q1, ?Q1', ?Q2, ?Q2', ?Q3, ?Q3', ?A1, ?A2, ?A3 in *.
+    exists (dot (cross a2 a3) q / D), (dot (cross a3 a1) q / D), (dot (cross a1 a2) q / D).
+    repeat split; try (apply Sd; assumption).
+    pose proof (cramer a1 a2 a3 q) as C. fold D in C.
+    rewrite (dot_comm q (cross a2 a3)), (dot_comm q (cross a3 a1)), (dot_comm q (cross a1 a2)) in C.
+    set (X := dot (cross a2 a3) q) in *. set (Y := dot (cross a3 a1) q) in *.
+    set (W := dot (cross a1 a2) q) in *. clearbody X Y W D. unfold q in C. clear - C HD.
+    destruct p as [[p1 p2] p3], v as [[v1 v2] v3], a1 as [[x1 y1] z1], a2 as [[x2 y2] z2],
+             a3 as [[x3 y3] z3].
+    unfold vsub, vadd, vmul in *. injection C as C1 C2 C3.
+    apply pair3; apply (Rmult_eq_reg_l D); try assumption; field_simplify; try assumption; lra.
+Qed.
